@@ -40,8 +40,9 @@ type fakeStore struct {
 	meta                   map[string]map[string]string // existing accounts and their metadata
 	allAccountsExist       bool
 	balErr, accErr         error
-	uniform                *big.Int // when set, every queried pair has this balance
-	dropBalances           bool     // misbehaving store: answers with an empty map
+	uniform                *big.Int        // when set, every queried pair has this balance
+	dropBalances           bool            // misbehaving store: answers with an empty map
+	queried                map[string]bool // "account\x00asset" pairs asked through GetBalances
 }
 
 func newFakeStore(env *gen.Env) *fakeStore {
@@ -59,6 +60,10 @@ func (s *fakeStore) GetBalances(_ context.Context, q ledgerstore.BalanceQuery) (
 	for acc, assets := range q {
 		m := map[string]*big.Int{}
 		for _, a := range assets {
+			if s.queried == nil {
+				s.queried = map[string]bool{}
+			}
+			s.queried[acc+"\x00"+a] = true
 			v := new(big.Int)
 			if s.uniform != nil {
 				v.Set(s.uniform)
@@ -135,6 +140,8 @@ type machineRun struct {
 	Stage    string // "", or the stage that returned the error: vars|resources|balances|execute
 	Err      error
 	Panic    any
+	PanicAt  string          // innermost ledger function on the panicking stack
+	Queried  map[string]bool // balance pairs the machine fetched from the store (set by the explorer)
 	Postings []vm.Posting
 	Balances map[string]map[string]*big.Int
 	TxMeta   map[string]string
@@ -150,6 +157,7 @@ func runMachine(prog *program.Program, vars map[string]string, st vm.Store) (res
 	defer func() {
 		if p := recover(); p != nil {
 			res.Panic = p
+			res.PanicAt = panicSite(debug.Stack(), p)
 			res.Stage = "panic:" + res.Stage
 		}
 	}()
@@ -505,3 +513,54 @@ func shortErr(err error) string {
 // tuneRuntime: the checks allocate many short-lived objects (parse trees, big
 // ints); a lazier GC roughly halves the wall time. One check runs per process.
 func tuneRuntime() { debug.SetGCPercent(800) }
+
+// panicSite names a panic structurally: the innermost function of the ledger
+// (or of a dependency, if none) that was running when it was raised, plus the
+// kind of runtime error. The instance (values, addresses) is left out.
+func panicSite(stack []byte, p any) string {
+	kind := "explicit-panic"
+	if e, ok := p.(runtime.Error); ok {
+		msg := e.Error()
+		switch {
+		case strings.Contains(msg, "nil pointer") || strings.Contains(msg, "nil *"):
+			kind = "nil-dereference"
+		case strings.Contains(msg, "index out of range") || strings.Contains(msg, "slice bounds"):
+			kind = "index-out-of-range"
+		case strings.Contains(msg, "interface conversion"):
+			kind = "type-assertion"
+		case strings.Contains(msg, "stack overflow"):
+			kind = "stack-overflow"
+		default:
+			kind = "runtime-error"
+		}
+	}
+	lines := strings.Split(string(stack), "\n")
+	after := false
+	first := ""
+	for _, l := range lines {
+		if strings.HasPrefix(l, "panic(") {
+			after = true
+			continue
+		}
+		if !after || strings.HasPrefix(l, "\t") || l == "" {
+			continue
+		}
+		fn := l
+		if i := strings.LastIndexByte(fn, '('); i > 0 {
+			fn = fn[:i]
+		}
+		if strings.HasPrefix(fn, "runtime.") || strings.Contains(fn, "verifh/") || strings.Contains(fn, "internal/machine.(*MonetaryInt)") {
+			continue // value helpers: the caller is the interesting site
+		}
+		if first == "" {
+			first = fn
+		}
+		if strings.Contains(fn, "github.com/formancehq/ledger/") {
+			return kind + "@" + strings.TrimPrefix(fn, "github.com/formancehq/ledger/")
+		}
+	}
+	if first == "" {
+		first = "unknown"
+	}
+	return kind + "@" + first
+}
